@@ -255,6 +255,7 @@ PostN(f, i, o) ==
                  /\ o.l = OstreamLayout(i.st, i.w, i.fill, i.v) /\ o.wl = 0               \* the specification agrees with the platform's C++ library
                  /\ (~ZeroHexShowbase(i.st, i.v) /\ ~OctInternalRow(i.st, i.w, i.v) => o.z = o.l)   \* and MPIR is byte-identical to it (outside the two stated classes)
      [] f = "cxx_ostream_q" -> o.q \in MpqOstreamTexts(i.st, i.w, i.fill, i.n, i.d) /\ o.wq = 0
+     [] f = "cxx_ostream_f" -> MpfOstreamOK(i, o)
      [] f = "cxx_istream" ->       \* o.pos: characters consumed, o.next: the character the next get() returns ("" at end of input), o.l*: the standard library reading a long
            LET p == IParse(i.s, i.base, i.skipws) IN
            IF p.open THEN TRUE
